@@ -231,7 +231,7 @@ def considerPELIfSeverityMatches(uh: UserHeader, config: Config) -> bool:
              False otherwise.
     """
     for sev in config.severities:
-        if hex(uh.eventSeverity).startswith(hex(sev)):
+        if (uh.eventSeverity >> 4) == sev:
             return True
     return False
 
